@@ -403,8 +403,27 @@ func runC09(c *Ctx) {
 	}
 	races := map[string]int{}
 	stressRuns := 0
-	for phase, calls := range [][]histCall{clean, all} {
+	// one phase per entry point as well: calls of the same kind overlap far
+	// more often than in the mixed phases (state shared by one path only)
+	phases := [][]histCall{clean, all}
+	phaseNames := []string{"clean pool", "whole pool"}
+	for _, api := range []string{"integrity", "decode", "chained", "encode"} {
+		var only []histCall
+		for _, h := range clean {
+			if h.API == api {
+				only = append(only, h)
+			}
+		}
+		if len(only) > 0 {
+			phases = append(phases, only)
+			phaseNames = append(phaseNames, "clean pool, "+api+" only")
+		}
+	}
+	for phase, calls := range phases {
 		rounds := c.pick(3, 12)
+		if phase >= 2 {
+			rounds = c.pick(1, 4)
+		}
 		for rd := 0; rd < rounds; rd++ {
 			sp := stressSpec{Pool: poolFile, Calls: calls, Goroutines: 8, Iterations: c.pick(12, 40), Seed: c.Seed*100 + int64(rd)}
 			res, stderr := c.runStressChild(raceExe, dir, sp)
@@ -415,7 +434,7 @@ func runC09(c *Ctx) {
 			}
 			for _, sig := range raceSigs(stderr) {
 				races[sig]++
-				evs = append(evs, ev{Kind: "race", A: sig, B: []string{"clean pool", "whole pool"}[phase]})
+				evs = append(evs, ev{Kind: "race", A: sig, B: phaseNames[phase]})
 			}
 			b, _ := json.Marshal(map[string]interface{}{"id": 100000 + phase*1000 + rd, "events": evs})
 			tb.Write(b)
@@ -460,7 +479,7 @@ func runC09(c *Ctx) {
 	c.Cov["race_signatures"] = races
 	c.Cov["evaluations"] = nsched + stressRuns
 	c.Cov["distinct_nontrivial"] = concurrent + stressRuns
-	c.Cov["rule"] = "every record-granularity interleaving TLC enumerates for two concurrent Decode calls over the model's three inputs, forced through gated readers; plus free-running stress (8 goroutines, random pool calls of Decode / DecodeChained / CheckIntegrity / Encode) under the race detector, once over a pool without accumulated fields and once over the whole pool"
+	c.Cov["rule"] = "every record-granularity interleaving TLC enumerates for two concurrent Decode calls over the model's three inputs, forced through gated readers; plus free-running stress (8 goroutines, random pool calls of Decode / DecodeChained / CheckIntegrity / Encode) under the race detector, once over a pool without accumulated fields, once over the whole pool, and once per entry point (only calls of that kind, so that they overlap) over the pool without accumulated fields; the pool holds files larger than 4 KiB, 32 KiB and 64 KiB"
 	if len(schedules) > 0 {
 		c.sample(map[string]interface{}{"kind": "schedule", "events": schedules[len(schedules)/2]})
 	}
